@@ -59,8 +59,16 @@ func fixed() []Snip {
 		snippets(tpl("@x", named("x", X)), comment("c"), block("\n")),
 		fragments(nilS()), fragments(block("")), fragments(block("a")), fragments(tpl("@x'", named("x", X))),
 		nilS(), block(""), block("@x %v"), value(Val{T: "nil"}), value(Val{T: "int", I: 3}), ident(Val{T: "name", S: "Foo"}), ident(Val{T: "nil"}),
+		// arguments the format does not mention are not rendered (one argument set, several texts): probes record / panic
+		tpl("a@x'b", named("x", X), named("y", probeS("P", true)), named("ab", probeS("Q", false))),
+		tpl("no placeholder", named("x", probeS("P", true))), tpl("", named("x", probeS("P", false))), tpl("@xy", named("xy", X), named("x", probeS("P", true)), named("y", probeS("P", false))),
+		tpl("@x @y", named("x", probeS("P", false)), named("y", probeS("", false)), named("_u", probeS("U", true))),
+		tpl("@x", named("x", probeS("P", true))), tpl("a@x'b@x", named("x", probeS("@y%v", false))),
+		snippets(tpl("var _ @x", named("x", X), named("y", probeS("Y", true))), tpl("var _ @y", named("x", probeS("X", true)), named("y", block("Y")))),
+		tpl("[@x]", named("x", tpl("<@a1>", named("a1", X), named("x", probeS("inner", true)))), named("a1", probeS("outer", false))),
+		tpl("@x", named("x", X), named("y", tpl("@zz")), named("ab", spf("%v"))),
 		// the known finding and the malformed stream
-		tpl(bomS + "a"), tpl("\n\n" + bomS + "a@x", named("x", X)), tpl("a" + bomS + "b"), tpl(bomS + bomS + "a"), spf(bomS + "a%v", varg(Val{T: "int", I: 1})),
+		tpl(bomS + "a"), tpl("\n\n"+bomS+"a@x", named("x", X)), tpl("a" + bomS + "b"), tpl(bomS + bomS + "a"), spf(bomS+"a%v", varg(Val{T: "int", I: 1})),
 		tpl("a\xffb\xe1\x80@x", named("x", X)), tpl("\xef\xbb@x", named("x", X)), spf("\xc3%v\xed\xa0\x80", varg(Val{T: "int", I: 1})),
 		tpl("\xf0\x9f\x98\x80@x\xf4\x90\x80\x80", named("x", X)),
 	}
@@ -190,14 +198,27 @@ func (g *gen) template(depth int) Snip {
 	f := b.String()
 	// bindings: the names used (a few left unbound), plus unused ones
 	var args []Arg
+	// shared: the template is given a whole argument set (as a generator that keeps one snippet.Args value for several
+	// texts does): every name of the pool is bound, most of them are not mentioned by this format
+	shared := r.Chance(12)
 	for _, nm := range names {
 		if used[nm] {
 			if r.Chance(2) {
 				continue // unbound: must panic
 			}
+			if r.Chance(6) { // a probe in a placeholder position: rendered, yields its text or panics
+				args = append(args, named(nm, g.probe()))
+				continue
+			}
 			args = append(args, named(nm, g.argSnip(depth)))
-		} else if r.Chance(10) {
-			args = append(args, named(nm, g.argSnip(depth)))
+		} else if shared || r.Chance(22) {
+			// a binding the format does not mention: it must not be rendered at all - probes record / panic if they
+			// are, the other kinds include arguments that would panic (unbound placeholders, %v without argument)
+			if r.Chance(60) {
+				args = append(args, named(nm, g.probe()))
+			} else {
+				args = append(args, named(nm, g.argSnip(depth)))
+			}
 		}
 	}
 	for nm := range map[string]bool{} {
@@ -223,6 +244,10 @@ func (g *gen) template(depth int) Snip {
 		args = append(args, dup)
 	}
 	return tpl(f, args...)
+}
+
+func (g *gen) probe() Snip {
+	return probeS(core.Pick(g.r, []string{"P", "", "@x", "probe text", "%v", "\n"}), g.r.Chance(50))
 }
 
 // map iteration above is random: make the input deterministic for a seed
@@ -657,7 +682,7 @@ func shrinkSnip(s Snip) []Snip {
 	// shorten the text
 	for _, t := range dropRunes(string(s.S)) {
 		c := mk(s.K, t)
-		c.Args, c.Strs, c.L, c.V = s.Args, s.Strs, s.L, s.V
+		c.Args, c.Strs, c.L, c.V, c.P, c.N, c.Pan, c.Self = s.Args, s.Strs, s.L, s.V, s.P, s.N, s.Pan, s.Self
 		out = append(out, c)
 	}
 	// simplify a child: to an empty block, to a literal block, or recursively
